@@ -1,8 +1,10 @@
 package clustersim
 
 import (
+	"encoding/json"
 	"context"
 	"fmt"
+	"os"
 	"runtime/debug"
 	"sort"
 	"strings"
@@ -47,6 +49,8 @@ type run struct {
 	models       map[dragonboat.ShardKey]*shardModel
 	lastL        map[string]uint64
 	seenL        map[string]map[uint64]bool
+	onceChecked  map[uint64]uint64 // follower shard -> log index the once-in-order oracle has read up to
+	onceLast     map[uint64]uint64 // follower shard -> leader index of the last replicated proposal seen
 	hist         []*histOp
 	seq          int
 	faulted      bool
@@ -284,6 +288,9 @@ func (r *run) observeFollowers(final bool) {
 			if !ok || t.ClusterID == 0 || r.deleted[t.Name] {
 				continue
 			}
+			if !r.checkOnceInOrder(t.Name, t.ClusterID) {
+				return
+			}
 			for _, lin := range []bool{false, true} {
 				ctx, cancel := ctxT(2 * time.Second)
 				at, err := n.engine.GetTable(t.Name)
@@ -313,6 +320,22 @@ func (r *run) observeFollowers(final bool) {
 					return
 				}
 				if d := want.Diff(pairs); d != "" {
+					if os.Getenv("VERIF_LOG") != "" {
+						for _, s := range r.w.u.Shards() {
+							fmt.Fprintf(os.Stderr, "DBG shard %v last=%d leader=%d %+v\n", s.Key, s.Last, s.Leader, s.Replicas)
+						}
+						for _, e := range r.w.u.Log("F", t.ClusterID) {
+							c := &regattapb.Command{}
+							if e.Regular {
+								_ = c.UnmarshalVT(e.Payload)
+							}
+							li := int64(-1)
+							if c.LeaderIndex != nil {
+								li = int64(*c.LeaderIndex)
+							}
+							fmt.Fprintf(os.Stderr, "DBG F/%d entry %d regular=%v type=%v li=%d nseq=%d nbatch=%d\n", t.ClusterID, e.Index, e.Regular, c.Type, li, len(c.Sequence), len(c.Batch))
+						}
+					}
 					sig := "content-vs-leader-index:" + mode
 					if len(pairs) < want.Len() {
 						sig += ":missing"
@@ -346,6 +369,79 @@ func (r *run) observeFollowers(final bool) {
 			}
 		}
 	}
+}
+
+// checkOnceInOrder is C05's "every leader command takes effect exactly once and in leader order", read off the
+// ground truth: the committed log of the follower table's shard. Every replicated proposal carries the leader
+// index of its last command; a committed proposal whose leader index is not above the one before it makes the
+// follower apply leader commands a second time (or out of order), whether or not the content happens to survive.
+func (r *run) checkOnceInOrder(table string, shardID uint64) bool {
+	log := r.w.u.Log("F", shardID)
+	from := r.onceChecked[shardID]
+	last := r.onceLast[shardID]
+	for _, e := range log {
+		if e.Index <= from || !e.Regular {
+			continue
+		}
+		from = e.Index
+		c := &regattapb.Command{}
+		if err := c.UnmarshalVT(e.Payload); err != nil || c.LeaderIndex == nil {
+			continue
+		}
+		li := *c.LeaderIndex
+		if li == last && c.Type == regattapb.Command_PUT_BATCH {
+			// the closing batch of a snapshot restore, proposed again after an indeterminate (timed out but
+			// applied) first attempt: the same pairs at the same leader index, not a leader command run twice
+			r.out.Probe("restore-batch-retried")
+			continue
+		}
+		if li <= last {
+			r.fail("C05", "replicated-twice", "replicated-twice:"+c.Type.String(), "follower table %s (shard %d): committed entry %d replicates leader commands up to leader index %d (%s, %d commands) although an earlier entry already took the table to leader index %d: leader commands are applied a second time", table, shardID, e.Index, li, c.Type, len(c.Sequence), last)
+			return false
+		}
+		last = li
+	}
+	r.onceChecked[shardID], r.onceLast[shardID] = from, last
+	return true
+}
+
+// leaseHolder reads the current owner of a table's replication lease off the committed log of the follower
+// cluster's metadata shard (compare-and-set replayed), 0 when there is none.
+func (r *run) leaseHolder(table string) uint64 {
+	type ver struct {
+		val string
+		ver uint64
+	}
+	cur := map[string]ver{}
+	for _, e := range r.w.u.Log("F", 1000) {
+		if !e.Regular {
+			continue
+		}
+		var u struct {
+			Op     string
+			KVPair struct {
+				Key   string
+				Value string
+				Ver   uint64
+			}
+		}
+		if json.Unmarshal(e.Payload, &u) != nil {
+			continue
+		}
+		if c, exists := cur[u.KVPair.Key]; exists && c.ver != u.KVPair.Ver {
+			continue
+		}
+		if u.Op == "set" {
+			cur[u.KVPair.Key] = ver{u.KVPair.Value, e.Index}
+		} else {
+			delete(cur, u.KVPair.Key)
+		}
+	}
+	var rec leaseRec
+	if c, ok := cur["/tables/"+table+"/lease"]; ok {
+		_ = json.Unmarshal([]byte(c.val), &rec)
+	}
+	return rec.ID
 }
 
 // ---- step execution -----------------------------------------------------------------------
@@ -466,6 +562,32 @@ func (r *run) execStep(st *Step) {
 			r.out.Fault("node-stop")
 			r.faulted = true
 		}
+	case "stopholder":
+		// a fault aimed at state: the follower node that holds the replication lease of a table right now
+		// (and is therefore the one polling the leader or recovering from a snapshot) is shut down,
+		// crashed, or has its replication manager restarted
+		id := r.leaseHolder(r.table(st.T))
+		var n *Node
+		for _, c := range r.w.follow {
+			if c.cfg.ID == id && c.up {
+				n = c
+			}
+		}
+		if n == nil {
+			return
+		}
+		r.out.Probe("lease-holder-targeted")
+		switch st.Cnt % 3 {
+		case 0:
+			n.stop()
+			r.out.Fault("node-stop")
+		case 1:
+			n.crash()
+			r.out.Fault("node-crash")
+		default:
+			r.execStep(&Step{Op: "workerrestart", N: int(id) - 1})
+		}
+		r.faulted = true
 	case "crashnode":
 		n := r.node(st.F, st.N)
 		if n != nil && n.up {
@@ -501,7 +623,17 @@ func (r *run) execStep(st *Step) {
 	case "workerrestart":
 		n := r.node(true, st.N)
 		if n != nil && n.up && n.repl != nil {
-			n.repl.Close()
+			before := n.abandoned
+			n.closeRepl(10 * time.Minute)
+			if n.abandoned != before {
+				// the old manager never finished closing (see closeRepl): two managers in one process is not
+				// a state regatta can be in, so the process goes down instead
+				r.out.Probe("replication-close-abandoned")
+				n.crash()
+				r.out.Fault("node-crash")
+				r.faulted = true
+				return
+			}
 			// the replication manager owns the replication metadata shard: a new manager starts it again
 			_ = n.engine.NodeHost.StopShard(2000)
 			n.repl = replication.NewManager(n.engine, n.queue, n.conn, replication.Config{
